@@ -9,6 +9,7 @@ package batch
 
 import (
 	"strconv"
+	"strings"
 
 	"github.com/monstermichl/typeshell/parser"
 )
@@ -261,11 +262,11 @@ func funcInfoOf(name string) funcInfo {
 //@   ensures[C16] non-empty-body: appended(specBlock(c), old(specBlockBefore(c)), "rem No operation") && result == nil && routeOK(c)
 //
 //@ func (*converter).VarDefinition
-//@   ensures[C05] line: appended(specBlock(c), old(specBlockBefore(c)), specSet(specName(len(c.funcs) > 0, c.funcCounter, name, global), value)) && result == nil && routeOK(c)
+//@   ensures[C05] line: appended(specBlock(c), old(specBlockBefore(c)), specSet(specName(len(c.funcs) > 0, c.funcCounter, name, global), value)) && result == nil && routeOK(c) && specBlockBefore(c) == specBlock(c)
 //@   ensures[C05] frame: sameExcept(c, old(c), "globalCode", "functionsCode", "previousFunctionName")
 //
 //@ func (*converter).VarAssignment
-//@   ensures[C05] line: appended(specBlock(c), old(specBlockBefore(c)), specSet(specName(len(c.funcs) > 0, c.funcCounter, name, global), value)) && result == nil && routeOK(c)
+//@   ensures[C05] line: appended(specBlock(c), old(specBlockBefore(c)), specSet(specName(len(c.funcs) > 0, c.funcCounter, name, global), value)) && result == nil && routeOK(c) && specBlockBefore(c) == specBlock(c)
 //@   ensures[C05] frame: sameExcept(c, old(c), "globalCode", "functionsCode", "previousFunctionName")
 //
 //@ func (*converter).VarEvaluation
@@ -301,6 +302,24 @@ func funcInfoOf(name string) funcInfo {
 //@   ensures[C05] or-line: err == nil && operator == "||" ==> appended(specBlock(c), old(specBlockBefore(c)), "if " + left + " equ 1 (" + specSet(specName(len(c.funcs) > 0, c.funcCounter, specHelperName(old(c.varCounter)), false), "1") + ") else if " + right + " equ 1 (" + specSet(specName(len(c.funcs) > 0, c.funcCounter, specHelperName(old(c.varCounter)), false), "1") + ") else " + specSet(specName(len(c.funcs) > 0, c.funcCounter, specHelperName(old(c.varCounter)), false), "0"))
 //@   ensures[C05,C10] result-is-the-fresh-helper: err == nil ==> result == specRef(specName(len(c.funcs) > 0, c.funcCounter, specHelperName(old(c.varCounter)), false))
 //@   ensures[C05] counter: c.varCounter == old(c.varCounter) + 1 && routeOK(c)
+//
+//@ func (*converter).SliceAssignment
+//@   ensures[C05] value-in-register-then-helper-call-on-the-right-variable: appended(specBlock(c), old(specBlockBefore(c)), specSet("_fa0", value), "call :_sah " + specName(len(c.funcs) > 0, c.funcCounter, name, global) + " " + index + " " + defaultValue)
+//
+//@ func (*converter).SliceLen
+//@   ensures[C05] length-copied-into-a-fresh-helper: appended(specBlock(c), old(specBlockBefore(c)), "call :_slg " + name, specSet(specName(len(c.funcs) > 0, c.funcCounter, specHelperName(old(c.varCounter)), false), "!_len!")) && result0 == specRef(specName(len(c.funcs) > 0, c.funcCounter, specHelperName(old(c.varCounter)), false)) && c.varCounter == old(c.varCounter) + 1
+//
+//@ func (*converter).SliceEvaluation
+//@   ensures[C05] indirect-read-into-a-fresh-helper: appended(specBlock(c), old(specBlockBefore(c)), "for /f \"delims=\" %%i in (\"" + name + "_" + index + "\") do set \"" + specName(len(c.funcs) > 0, c.funcCounter, specHelperName(old(c.varCounter)), false) + "=!%%i!\"") && result0 == specRef(specName(len(c.funcs) > 0, c.funcCounter, specHelperName(old(c.varCounter)), false)) && c.varCounter == old(c.varCounter) + 1 && err == nil
+//
+//@ func (*converter).StringSubscript
+//@   ensures[C05] value-in-register-then-helper-call: appended(specBlock(c), old(specBlockBefore(c)), specSet("_fa0", value), "call :_stsh " + startIndex + " " + endIndex, specSet(specName(len(c.funcs) > 0, c.funcCounter, specHelperName(old(c.varCounter)), false), "!_sub!")) && result0 == specRef(specName(len(c.funcs) > 0, c.funcCounter, specHelperName(old(c.varCounter)), false)) && c.varCounter == old(c.varCounter) + 1
+//
+//@ func (*converter).StringLen
+//@   ensures[C05] value-in-register-then-helper-call: appended(specBlock(c), old(specBlockBefore(c)), specSet("_fa0", value), "call :_stlh ", specSet(specName(len(c.funcs) > 0, c.funcCounter, specHelperName(old(c.varCounter)), false), "!_l!")) && result0 == specRef(specName(len(c.funcs) > 0, c.funcCounter, specHelperName(old(c.varCounter)), false)) && c.varCounter == old(c.varCounter) + 1
+//
+//@ func (*converter).Return
+//@   ensures[C05] jumps-to-own-return-label-last: len(specBlock(c)) >= 1 && specBlock(c)[len(specBlock(c)) - 1] == "goto :_ret_" + c.funcs[len(c.funcs) - 1].name
 //
 //@ func (*converter).callEchoFunc
 //@   ensures[C16] echo-helper-flagged: c.echoHelperRequired
@@ -354,3 +373,5 @@ func funcInfoOf(name string) funcInfo {
 //@   requires[C13,C16] inv: len(c.funcs) > 0
 //@   loop 1 invariant[C05] frame: routeOK(c) && c.funcs == old(c.funcs)
 //@   ensures[C05,C16] still-in-function: c.funcs == old(c.funcs) && result == nil && routeOK(c)
+
+var _ = strings.TrimSpace
